@@ -135,6 +135,7 @@ func derefNamedOwner(v *types.Var, owner *types.Named) (bool, bool) {
 
 func checkC17(c *Ctx, r *Report) {
 	defer checkGraphMutationSites(c, r, "C17.a")
+	defer checkEndpointsResolvedLast(c, r, "C17.b")
 	defer checkContainerFields(c, r, "C17.a")
 	w := c.W
 	r.NotDecided = append(r.NotDecided, "the invariant over operation histories (that edges, deps and revDeps denote the same edge set after any sequence of operations): an inductive argument", "agreement of Children/Parents/Descendants with a set model for every graph")
@@ -963,4 +964,84 @@ func checkGraphIdempotency(c *Ctx, r *Report, clause string) {
 			"built-in/composite nodes are created once; later requests return the stored node")
 	}
 
+}
+
+// checkEndpointsResolvedLast: the key of an edge endpoint that was obtained from an existence
+// check (getKeyForUsage / ensureTypeNode answer "this node is in the graph") is only good until
+// the graph is next changed by something that can remove nodes: createAndAddSymNode replaces a
+// stale version of the node and RemoveNode cascades to its dependants - the endpoint just
+// checked may be among them. Between the check and the AddEdge that relies on it no such call
+// may lie on any path.
+func checkEndpointsResolvedLast(c *Ctx, r *Report, clause string) {
+	w := c.W
+	const (
+		addEdge = "(*" + pkgSdg + ".SymbolGraph).AddEdge"
+		create  = "(*" + pkgSdg + ".SymbolGraph).createAndAddSymNode"
+		rmNode  = "(*" + pkgSdg + ".SymbolGraph).RemoveNode"
+	)
+	isCheck := func(n string) bool {
+		return n == "(*"+pkgSdg+".SymbolGraph).getKeyForUsage" || n == "(*"+pkgSdg+".SymbolGraph).ensureTypeNode"
+	}
+	isEvict := func(n string) bool { return n == create || n == rmNode }
+	// a evict call m lies between k and e when m is reachable from k and e from m
+	after := func(a, b ssa.Instruction) bool { // b can execute after a
+		if a.Block() == b.Block() {
+			ia, ib := -1, -1
+			for i, ins := range a.Block().Instrs {
+				if ins == a {
+					ia = i
+				}
+				if ins == b {
+					ib = i
+				}
+			}
+			if ib > ia {
+				return true
+			}
+		}
+		return reachableBlocksFrom(a.Block())[b.Block()]
+	}
+	var sites []string
+	viol := ""
+	n := 0
+	for _, fi := range w.funcsOfPkgPrefixes(pkgSdg) {
+		if fi.SSA == nil || w.isNewName(fi.Key) {
+			continue
+		}
+		edges := callsIn(fi.SSA, true, nameIs(addEdge))
+		if len(edges) == 0 {
+			continue
+		}
+		var evicts []ssa.CallInstruction
+		allInstrs(fi.SSA, true, func(_ *ssa.Function, _ *ssa.BasicBlock, _ int, ins ssa.Instruction) {
+			if cl, ok := ins.(ssa.CallInstruction); ok && isEvict(calleeName(cl)) {
+				evicts = append(evicts, cl)
+			}
+		})
+		for _, e := range edges {
+			for _, arg := range e.Common().Args {
+				for _, ov := range w.originValues(arg) {
+					ex, ok := ov.(*ssa.Extract)
+					if !ok {
+						continue
+					}
+					k, ok := ex.Tuple.(*ssa.Call)
+					if !ok || !isCheck(calleeName(k)) {
+						continue
+					}
+					n++
+					sites = append(sites, w.pos(k.Pos()))
+					for _, m := range evicts {
+						if m.Parent() == k.Parent() && m.Parent() == e.Parent() && after(k, m) && after(m, e) {
+							viol = fmt.Sprintf("%s: %s links to a node whose presence was checked at %s, but %s at %s runs in between and can remove nodes (a stale version is replaced, its dependants go with it): the edge may point at a node that is no longer in the graph, and a failed resolution no longer fails the call", w.pos(e.Pos()), fi.Key, w.pos(k.Pos()), calleeName(m), w.pos(m.Pos()))
+						}
+					}
+				}
+			}
+		}
+	}
+	if n < 1 {
+		viol = "no AddEdge whose endpoint comes from getKeyForUsage / ensureTypeNode was found (floor 1)"
+	}
+	r.add(clause, "no-reorder", "symboldg:endpoint-check-then-link", "an edge endpoint checked for presence is linked before anything that can remove nodes runs", []string{addEdge, create, rmNode}, sites, viol)
 }
